@@ -171,6 +171,17 @@ def check_life(pid, tier, seed):
         for j in ajobs:
             byrun[j["run"]] = j
         bad += abad; kn += akn; files = files + afiles; nlines += al; jobs = jobs + ajobs
+    # 3c. C11 also on the real binary: the timeout that governs incomplete sets is the configured one
+    e2e_viol = []
+    if "e2e_mpp" in spec.get("extra", []):
+        from . import e2e
+        est = e2e.mpp_check(seed, tier, wd)
+        os.makedirs(REPLAYS, exist_ok=True)
+        for n, (runno, text, rec) in enumerate(est["violations"][:2]):
+            pth = f"{REPLAYS}/{pid}_e2e{n}.json"
+            json.dump({"property": pid, "kind": "config", "what": text, "record": rec}, open(pth, "w"))
+            print(f"VIOLATION property={pid} replay={pth}")
+        e2e_viol = est["violations"]
     # 4. conformance verdict: the recorded runs of the instances' scenarios must be behaviours of Trampoline.tla
     conf = conformance(files, wd, 0 if thorough else 60000)
     for name, st in conf.items():
@@ -203,9 +214,9 @@ def check_life(pid, tier, seed):
     for (runno, why) in bad[:3]:
         p = save_replay(pid, runno, byrun[runno], trace_excerpt(files, runno, 400), why)
         print(f"VIOLATION property={pid} replay={p}")
-    write_evidence(pid, tier, seed, "model_checking", cov, time.time() - t0, len(bad))
+    write_evidence(pid, tier, seed, "model_checking", cov, time.time() - t0, len(bad) + len(e2e_viol))
     shutil.rmtree(wd, ignore_errors=True)
-    return 1 if bad else 0
+    return 1 if (bad or e2e_viol) else 0
 
 def tlc_plain(spec, cfg, workdir, timeout=900, workers=12):
     """TLC on a small side specification (Fee, Tlv, Wire, ...). Returns (generated, distinct, out)."""
